@@ -521,6 +521,13 @@ def _replay_stream(p, vals):
                 draws += m
         if abs(s.t_start - t) > 1e-9:
             msgs.append(f"clock is {s.t_start!r}, requested instant {t!r}")
+        # a new observation is flagged by set/add/reset; a noise re-estimate puts the flag back as it found it
+        flag = False
+        for op in ops:
+            if op in ('set', 'add', 'reset'):
+                flag = True
+        if bool(s.start_obs) != flag:
+            msgs.append(f"after {ops} the start-of-observation flag is {s.start_obs!r}, expected {flag}")
         b = np.array(s.get_samples(n2))
         want = closed(t + np.arange(n2) / sr, zs[draws:draws + n2])
         if b.shape != want.shape or not np.allclose(b, want, rtol=1e-9, atol=1e-9):
